@@ -148,6 +148,8 @@ def coq_build_prop(pid, timeout, allowed_axioms):
     vfile = os.path.join(COQ, "Props", pid + ".v")
     src = strip_comments(open(vfile).read())
     theorems = re.findall(r"^\s*Theorem\s+(\w+)", src, re.M)
+    printed = re.findall(r"^\s*Print\s+Assumptions\s+(\w+)\s*\.", src, re.M)
+    unpaired = [t for t in theorems if printed.count(t) != 1] + [q for q in printed if q not in theorems]
     # force recompilation of the pin file so that Print Assumptions output is fresh
     for ext in (".vo", ".vok", ".vos", ".glob"):
         try:
@@ -176,11 +178,13 @@ def coq_build_prop(pid, timeout, allowed_axioms):
     bad_ax = [a for a in used if a not in allowed_axioms]
     discharged = len(blocks) if rc == 0 else min(len(blocks), len(theorems))
     failed_thm = None
+    if unpaired:
+        failed_thm = "every Theorem must be followed by exactly one `Print Assumptions` of the same name: %s" % unpaired[:5]
     if rc != 0:
         m = re.search(r'File "\./(.*?)", line (\d+)', out)
         failed_thm = m.group(0) if m else "build failed"
     return dict(obligations=len(theorems), discharged=discharged if not bad_ax else 0, theorems=theorems,
-                ok=(rc == 0 and not bad_ax and len(blocks) >= len(theorems)), log=out, axioms=used,
+                ok=(rc == 0 and not bad_ax and not unpaired and len(blocks) >= len(printed) >= len(theorems)), log=out, axioms=used,
                 bad_axioms=bad_ax, failed=failed_thm, rc=rc)
 
 
@@ -340,7 +344,7 @@ def source_fingerprint(pid):
 
 def fingerprint_changed(pid):
     """(changed?, current) against tools/fingerprints.json, which records the sources the committed models were
-    written against; a difference is NOT a violation: it only makes the quick tier generate at thorough volume"""
+    written against; a difference is NOT a violation: it only makes the tier's generators run with three seeds"""
     cur = source_fingerprint(pid)
     p = os.path.join(ROOT, "tools", "fingerprints.json")
     known = json.load(open(p)) if os.path.exists(p) else {}
